@@ -48,7 +48,7 @@ def p1(ctx):
         yield Ob(key_of("C02-P1", b.path, "unlink-after-mark"), oku, "unlink CAS attempted only on the mark's success edge", ctx.loc(unl[0]))
 
 
-@rule("C02-P2", "C02", 8, "expected-value discipline: each node-word CAS's new value is computed from the word it expects")
+@rule("C02-P2", "C02", 8, "expected-value discipline: each node-word CAS's new value is computed from the word it expects", also=("C01",))
 def p2(ctx):
     for name in MARKING:
         b, ev, res = sync_eval(ctx, name)
@@ -82,7 +82,7 @@ def p2(ctx):
                      {"own": short(own, 80), "headers": [short(s["new"], 100) for s in hdr]})
 
 
-@rule("C02-P3", "C02", 2, "header before link: the store of the new node's own header dominates the link CAS", also=("C06",))
+@rule("C02-P3", "C02", 2, "header before link: the store of the new node's own header dominates the link CAS", also=("C06", "C01",))
 def p3(ctx):
     for name in LINKING:
         b, ev, res = sync_eval(ctx, name)
